@@ -16,6 +16,21 @@ namespace DH.Mem
 theorem pyEq_refl (v : Val) : pyEq v v = true := by
   cases v <;> simp [pyEq, Val.toRat?]
 
+/-- Python-equal to a number of value `q`: a number (or `bool`) of the same value -/
+theorem pyEq_toRat {v c : Val} {q : Rat} (h : pyEq v c = true) (hq : v.toRat? = some q) :
+    c.toRat? = some q := by
+  cases v <;> cases c <;> simp_all [pyEq, Val.toRat?]
+
+/-- a declared choice (in either sense) equals (Python `==`) one of the choices -/
+theorem memChoice_any {cs : List Val} {v : Val} (h : memChoice cs v = true) : cs.any (pyEq v) = true := by
+  simp only [memChoice, Bool.or_eq_true, decide_eq_true_eq, Bool.and_eq_true] at h
+  rcases h with h | h
+  · exact List.any_eq_true.2 ⟨v, h, pyEq_refl v⟩
+  · exact h.2
+
+theorem memChoice_of_mem {cs : List Val} {v : Val} (h : v ∈ cs) : memChoice cs v = true := by
+  simp [memChoice, h]
+
 theorem clip_bounds {lo hi v : Rat} (h : lo ≤ hi) : lo ≤ clip lo hi v ∧ clip lo hi v ≤ hi := by
   unfold clip
   simp only [Rat.min_def, Rat.max_def]
@@ -52,9 +67,9 @@ theorem memDim_contains {d : Dim} {v : Val} (h : memDim d v = true) : containsDi
     cases v <;> simp [memDim] at h
     simp [containsDim, Val.toRat?, h.1, h.2]
   | cat cs =>
-    simp only [memDim, decide_eq_true_eq] at h
-    simp only [containsDim, List.any_eq_true]
-    exact ⟨v, h, pyEq_refl v⟩
+    simp only [memDim] at h
+    simp only [containsDim]
+    exact memChoice_any h
 
 theorem canon_mem {d : Dim} {v : Val} (hw : d.wf = true) (h : canon d = some v) : memDim d v = true := by
   cases d with
@@ -66,8 +81,8 @@ theorem canon_mem {d : Dim} {v : Val} (hw : d.wf = true) (h : canon d = some v) 
     simpa [memDim, Dim.wf] using hw
   | cat cs =>
     simp only [canon] at h
-    simp only [memDim, decide_eq_true_eq]
-    exact List.mem_of_mem_head? h
+    simp only [memDim]
+    exact memChoice_of_mem (List.mem_of_mem_head? h)
 
 theorem Hp.wf_dim {h : Hp} (hw : h.wf = true) : h.dim.wf = true := by
   simp only [Hp.wf, Bool.and_eq_true] at hw; exact hw.1
@@ -129,7 +144,7 @@ theorem choiceAt_mem {cs : List Val} {i : Int} {v : Val} (h : choiceAt cs i = so
 no condition for the other transformers -/
 def TokDim (ne : NumEnv) (h : Hp) (t : Slice) : Prop :=
   match h.dim, h.tr with
-  | .cat cs, .identity => ∀ v, invDim ne h t = some v → v ∈ cs
+  | .cat cs, .identity => ∀ v, invDim ne h t = some v → memChoice cs v = true
   | _, _ => True
 
 /-- **`inverse_transform` of anything is a member of the dimension** -/
@@ -150,25 +165,25 @@ theorem invDim_mem {ne : NumEnv} {h : Hp} {t : Slice} {v : Val} (hwf : h.wf = tr
       simp only [invDim] at hv <;> (try cases hv) <;>
       (try (split at hv <;> (try cases hv))) <;> exact int_mem hle _
   | cat cs =>
-    simp only [memDim, decide_eq_true_eq]
+    simp only [memDim]
     cases tr with
     | identity => exact htok v hv
     | label =>
       rcases t with _ | ⟨w, _ | ⟨w2, t⟩⟩ <;> simp only [invDim] at hv <;> (try cases hv)
-      exact henc cs rfl v (choiceAt_mem hv)
+      exact memChoice_of_mem (henc cs rfl v (choiceAt_mem hv))
     | normalize =>
       rcases t with _ | ⟨w, _ | ⟨w2, t⟩⟩ <;> simp only [invDim] at hv <;> (try cases hv)
       split at hv
-      · exact henc cs rfl v (choiceAt_mem hv)
+      · exact memChoice_of_mem (henc cs rfl v (choiceAt_mem hv))
       · cases hv
     | onehot =>
       simp only [invDim] at hv
       split at hv
       · split at hv
-        · exact List.mem_of_getElem? hv
+        · exact memChoice_of_mem (List.mem_of_getElem? hv)
         · cases hv
       · split at hv
-        · exact List.mem_of_getElem? hv
+        · exact memChoice_of_mem (List.mem_of_getElem? hv)
         · cases hv
 
 
@@ -416,9 +431,11 @@ theorem trDim_tok {ne : NumEnv} {h : Hp} {v : Val} (hwt : h.wfTr = true) (hm : m
     | normalize => exact ⟨trivial, trivial⟩
     | onehot => exact ⟨trivial, trivial⟩
     | identity =>
-      simp only [memDim, decide_eq_true_eq] at hm
-      simp only [Hp.wfTr, Bool.or_eq_true, List.all_eq_true] at hwt
+      simp only [memDim] at hm
+      simp only [Hp.wfTr] at hwt
       -- the value is numeric: its slice is `[q]`, the clip leaves it alone, and it comes back
+      have hany := memChoice_any hm
+      obtain ⟨c0, hc0, hpe⟩ := List.any_eq_true.1 hany
       cases hq : v.toRat? with
       | none =>
         have e : trDim ne ⟨name, .cat cs, .identity, cond, enc⟩ v = [] := by simp [trDim, hq]
@@ -426,7 +443,9 @@ theorem trDim_tok {ne : NumEnv} {h : Hp} {v : Val} (hwt : h.wfTr = true) (hm : m
         constructor <;> (intro w hw; simp [invDim, clipSlice] at hw)
       | some q =>
         have e : trDim ne ⟨name, .cat cs, .identity, cond, enc⟩ v = [q] := by simp [trDim, hq]
-        have hqmem : q ∈ cs.filterMap Val.toRat? := List.mem_filterMap.2 ⟨v, hm, hq⟩
+        -- the declared choice `c0` the value equals has the same numeric value
+        have hc0q : c0.toRat? = some q := pyEq_toRat hpe hq
+        have hqmem : q ∈ cs.filterMap Val.toRat? := List.mem_filterMap.2 ⟨c0, hc0, hc0q⟩
         have eclip : clipSlice (tBounds ne ⟨name, .cat cs, .identity, cond, enc⟩) [q] = [q] := by
           simp only [tBounds]
           split
@@ -435,34 +454,64 @@ theorem trDim_tok {ne : NumEnv} {h : Hp} {v : Val} (hwt : h.wfTr = true) (hm : m
             rw [hcons] at hqmem
             simp only [clipSlice]
             rw [clip_id (foldl_min_le qs q0 q hqmem) (le_foldl_max qs q0 q hqmem)]
-        have back : ∀ w, invDim ne ⟨name, .cat cs, .identity, cond, enc⟩ [q] = some w → w ∈ cs := by
+        have back : ∀ w, invDim ne ⟨name, .cat cs, .identity, cond, enc⟩ [q] = some w →
+            memChoice cs w = true := by
           intro w hw
           simp only [invDim] at hw
-          rcases hwt with hall | hall
-          · have hv := hall v hm
-            cases v <;> simp at hv
+          split at hw
+          · -- every choice is an `int`: the sequence is not mixed, `v` is the choice itself
+            rename_i hall
+            have hnm : mixedNum cs = false := by
+              simp only [mixedNum, Bool.and_eq_false_imp, Bool.and_eq_true]
+              intro _
+              rw [← Bool.not_eq_true, List.any_eq_true]
+              rintro ⟨c, hc, hcr⟩
+              have := (List.all_eq_true.1 hall) c hc
+              cases c <;> simp [Val.isInt, Val.isReal] at this hcr
+            have hv : v ∈ cs := by
+              simpa [memChoice, hnm] using hm
+            have hvi := (List.all_eq_true.1 hall) v hv
+            cases v <;> simp [Val.isInt] at hvi
             rename_i i
             simp only [Val.toRat?, Option.some.injEq] at hq
             subst hq
-            split at hw
-            · rw [trunc_intCast] at hw
-              cases hw; exact hm
-            · rename_i hc
-              exfalso; apply hc
-              rw [List.all_eq_true]
-              intro c hcm
-              have := hall c hcm
-              cases c <;> simp at this ⊢
-          · have hv := hall v hm
-            cases v <;> simp at hv
-            rename_i r
-            simp only [Val.toRat?, Option.some.injEq] at hq
-            subst hq
-            split at hw
-            · rename_i hc
-              have := (List.all_eq_true.1 hc) _ hm
-              simp at this
-            · cases hw; exact hm
+            rw [trunc_intCast] at hw
+            cases hw
+            exact memChoice_of_mem hv
+          · -- some choice is not an `int`: the float itself comes back
+            rename_i hnall
+            cases hw
+            have hallnum : ∀ c ∈ cs, c.isNum = true := List.all_eq_true.1 hwt
+            have hreal : cs.any Val.isReal = true := by
+              rw [List.any_eq_true]
+              have : ¬ ∀ c ∈ cs, c.isInt = true := fun h => hnall (List.all_eq_true.2 h)
+              by_contra hno
+              apply this
+              intro c hc
+              have hn := hallnum c hc
+              cases c <;> simp [Val.isNum, Val.isInt] at hn ⊢
+              exact hno ⟨_, hc, rfl⟩
+            have hc0n := hallnum c0 hc0
+            have hpe' : pyEq (.real q) c0 = true := by
+              cases c0 <;> simp [Val.isNum] at hc0n <;>
+                simp only [Val.toRat?, Option.some.injEq] at hc0q <;> subst hc0q <;>
+                simp [pyEq, Val.toRat?]
+            cases hci : c0.isInt with
+            | true =>
+              -- an `int` choice and a `float` choice: the sequence is mixed
+              have hmix : mixedNum cs = true := by
+                simp only [mixedNum, Bool.and_eq_true]
+                exact ⟨⟨hwt, List.any_eq_true.2 ⟨c0, hc0, hci⟩⟩, hreal⟩
+              simp only [memChoice, hmix, Val.isNum, Bool.true_and, Bool.or_eq_true, decide_eq_true_eq]
+              exact Or.inr (List.any_eq_true.2 ⟨c0, hc0, hpe'⟩)
+            | false =>
+              -- the choice is the float `q` itself
+              have : c0 = .real q := by
+                cases c0 <;> simp [Val.isNum, Val.isInt] at hc0n hci
+                simp only [Val.toRat?, Option.some.injEq] at hc0q
+                rw [hc0q]
+              rw [this] at hc0
+              exact memChoice_of_mem hc0
         rw [e, eclip]
         exact ⟨back, back⟩
 
@@ -644,9 +693,9 @@ theorem memDim_legal {d : Dim} {v : Val} (h : memDim d v = true) : legalDim d v 
     cases v <;> simp [memDim] at h
     simp [legalDim, Val.toRat?, h.1, h.2]
   | cat cs =>
-    simp only [memDim, decide_eq_true_eq] at h
-    simp only [legalDim, List.any_eq_true]
-    exact ⟨v, h, pyEq_refl v⟩
+    simp only [memDim] at h
+    simp only [legalDim]
+    exact memChoice_any h
 
 theorem memAll_legalAll : ∀ {hps : List Hp} {x : List Val} {act : List Bool},
     memAll hps x act = true → legalAll hps x act = true
